@@ -255,11 +255,47 @@ def c_decoders(tier):
             out += c_decoder_window([2, 3, 12, 16, 31] if tier == "quick" else list(range(2, 32)), dw, ok)["results"]
     return dict(results=out, functions=["litex.soc.integration.soc.SoCRegion.decoder"])
 
+def c_decoder_align(tier):
+    """SoCRegion.decoder: for EVERY origin >= 0, per (decoded size 2**e, declared size rounding up to it, bus width): the decoder is refused
+    (SoCError) exactly when the origin is not aligned on the DECODED (power-of-two) size - 'aligned to their decoded size ... no address
+    selects two slaves'; the real function runs on a symbolic origin"""
+    t0 = time.time(); out = []
+    exps = [2, 3, 5, 12, 16, 20, 31] if tier == "quick" else list(range(2, 32))
+    for dw in (32, 64):
+        class B: data_width = dw; address_width = 32
+        for e in exps:
+            P = 1 << e
+            for sz in sorted({P, P - (P >> 2) if e >= 3 else P, (P >> 1) + 1 if e >= 2 else P}):
+                r0 = S.SoCRegion(origin=0, size=sz)
+                if r0.size_pow2 != P: continue
+                def run(ctx, sz=sz, P=P):
+                    origin = SymInt(z3.Int("origin")); ctx.assume(origin >= 0)
+                    r = S.SoCRegion(origin=origin, size=sz); r.logger = logging.getLogger("x"); r.logger.disabled = True
+                    try:
+                        r.decoder(B)
+                    except S.SoCError:
+                        elab.restore_stderr(); ctx.check("refused=>origin-not-aligned-on-decoded-size", z3.Int("origin") % P != 0); return
+                    ctx.check("accepted=>origin-aligned-on-decoded-size", z3.Int("origin") % P == 0)
+                paths, obl = explore(run)
+                elab.restore_stderr()
+                def replay(m, sz=sz, P=P):
+                    ov = [m[d_] for d_ in m.decls() if str(d_) == "origin"]
+                    if not ov: return dict(reproduced=False)
+                    ov = ov[0].as_long(); rr = S.SoCRegion(origin=ov, size=sz); rr.logger = logging.getLogger("x"); rr.logger.disabled = True
+                    try: rr.decoder(B); refused = False
+                    except S.SoCError: elab.restore_stderr(); refused = True
+                    return dict(reproduced=refused != (ov % P != 0), origin=hex(ov), size=hex(sz), decoded_size=hex(P), refused=refused, call=f"SoCRegion(origin={ov:#x}, size={sz:#x}).decoder(bus {dw}-bit)")
+                rs = _results(f"SoCRegion.decoder.align[size={sz:#x},2**{e},dw={dw}]", paths, obl, t0, replay)
+                if paths < 2: rs.append(res(f"SoCRegion.decoder.align[size={sz:#x},2**{e},dw={dw}].both-outcomes-reachable", "cover", VACUOUS, 0, "pysym", paths=paths))
+                out += rs
+    return dict(results=out, functions=["litex.soc.integration.soc.SoCRegion.decoder (alignment test, all origins)"],
+                samples=[dict(function="SoCRegion.decoder", origin="symbolic int >= 0", sizes="2**e and two non-power-of-two sizes rounding up to it")])
+
 def cases(tier):
     return [Case("check_regions_overlap", c_overlap_contract), Case("add_region", c_add_region), Case("add_region(io_check)", c_add_region, True),
             Case("SoCLocHandler.add(fixed)", c_lochandler, 32, "fixed"), Case("SoCLocHandler.add(alloc)", c_lochandler, 8, "alloc"), Case("SoCLocHandler.add(reuse)", c_lochandler, 32, "reuse"),
             Case("alloc_region(bounded)", c_alloc_bounded), Case("SoCRegion.size_pow2(bounded)", c_region_pow2), Case("ConstraintManager(bounded)", c_platform_bounded),
-            Case("SoCRegion.decoder", c_decoders, tier)]
+            Case("SoCRegion.decoder", c_decoders, tier), Case("SoCRegion.decoder.align", c_decoder_align, tier)]
 
 ASSUMPTIONS = ["Python semantics assumed by the E3 encoding: ints are mathematical; dict iteration is insertion order; logging/colorer/str.format have no effect on results; no aliasing between the symbolic records handed in",
                "SoCRegion.size_pow2 >= size is assumed in add_region's proof; the constructor's own relation is proved in C13_alloc_proofs.py (SoCRegion.__init__(proof))",
